@@ -33,11 +33,20 @@
 (* as it is.  A chain ends at an error, a hazard or a 0-dim result.         *)
 EXTENDS Integers, Sequences, FiniteSets, TLC, Json
 
-CONSTANTS Mode,      \* "full1": 1-D, whole quantifier domain | "chain1": 1-D chains | "nd": 2-D / 3-D menus
-          Inits,     \* set of <<lens, lays>>
-          MaxDepth,  \* length of the chains
-          ChainFull, \* chain1: later links range over the whole domain instead of the boundary set
-          Dump       \* publish the cases
+CONSTANTS Inits,      \* set of <<mode, lens, lays>>; mode: "full1" 1-D, whole quantifier domain | "chain1" 1-D chains | "nd" 1..3-D menus
+          ChainDepth, \* length of the chains
+          ChainFull,  \* chain1: the second link ranges over the whole domain instead of the boundary set
+          Dump        \* publish the cases
+
+VARIABLES init,   \* <<mode, lens, lays>> of the input buffer
+          lane,   \* which part of the first-step menu this behaviour explores
+          prev,   \* view the last expression was applied to
+          view,   \* current (reference) view
+          hist,   \* expressions applied so far
+          exp     \* expected observation of the last expression, hazard class, predicted observation of the code as it is
+vars == <<init, lane, prev, view, hist, exp>>
+Mode == init[1]
+MaxDepth == IF Mode = "chain1" THEN ChainDepth ELSE 1
 
 NoneV == 99          \* "bound omitted" (all real bounds are within -2n-1 .. 2n+1, n <= 6)
 Big == 1000          \* stands for PY_SSIZE_T_MAX in PySlice_Unpack
@@ -175,37 +184,40 @@ UnellR(e, nd) == UnellR_(e, nd, {p \in DOMAIN e : e[p].k = "e"})
 ---------------------------------------------------------------------------
 (* applying an expanded expression: the p-th item that is not None takes axis p *)
 AxisOf(x, p) == Cardinality({q \in 1..p : x[q].k # "n"})
-CombineOk_(view, outs, kept) ==
-  [err |-> "", off |-> view.off + SumSeq(Seqify([p \in DOMAIN outs |-> outs[p].doff])),
+CombineOk_(vw, outs, kept) ==
+  [err |-> "", off |-> vw.off + SumSeq(Seqify([p \in DOMAIN outs |-> outs[p].doff])),
    dims |-> Seqify([q \in DOMAIN kept |-> [n |-> kept[q].n, s |-> kept[q].s]])]
-Combine_(view, outs, errs) ==
+Combine_(vw, outs, errs) ==
   IF errs # {} THEN [err |-> outs[SetMin(errs)].err, off |-> 0, dims |-> <<>>]      \* the first failing item decides
-  ELSE CombineOk_(view, outs, SelectSeq(outs, LAMBDA o : o.keep))
-Combine(view, outs) == Combine_(view, outs, {p \in DOMAIN outs : outs[p].err # ""})
+  ELSE CombineOk_(vw, outs, SelectSeq(outs, LAMBDA o : o.keep))
+Combine(vw, outs) == Combine_(vw, outs, {p \in DOMAIN outs : outs[p].err # ""})
 
 NoDim == [n |-> 0, s |-> 0]
-ApplyRef_(view, x) ==
-  Combine(view, Seqify([p \in DOMAIN x |-> AxisRef(IF x[p].k = "n" THEN NoDim ELSE view.dims[AxisOf(x, p)], x[p])]))
-ApplyRef(view, e) == ApplyRef_(view, Expand(e, Len(view.dims)))
+ApplyRef_(vw, x) ==
+  Combine(vw, Seqify([p \in DOMAIN x |-> AxisRef(IF x[p].k = "n" THEN NoDim ELSE vw.dims[AxisOf(x, p)], x[p])]))
+ApplyRef(vw, e) == ApplyRef_(vw, Expand(e, Len(vw.dims)))
 
-ApplyImpl_(view, x, fc, fd) ==
-  Combine(view, Seqify([p \in DOMAIN x |-> AxisImpl(IF x[p].k = "n" THEN NoDim ELSE view.dims[AxisOf(x, p)], x[p], fc, fd)]))
-ApplyImpl(view, e, path, fc, fd) ==
-  ApplyImpl_(view, IF path = "typed" THEN UnellC(e, Len(view.dims)) ELSE UnellR(e, Len(view.dims)), fc, fd)
+ApplyImpl_(vw, x, fc, fd) ==
+  Combine(vw, Seqify([p \in DOMAIN x |-> AxisImpl(IF x[p].k = "n" THEN NoDim ELSE vw.dims[AxisOf(x, p)], x[p], fc, fd)]))
+ApplyImpl(vw, e, path, fc, fd) ==
+  ApplyImpl_(vw, IF path = "typed" THEN UnellC(e, Len(vw.dims)) ELSE UnellR(e, Len(vw.dims)), fc, fd)
 
-\* what can be observed of a result
+\* what can be observed of a result.  The stride of an axis of extent 0 is not part of it (no element is
+\* ever addressed with it; NumPy keeps the operand's stride there, Python's memoryview multiplies it by
+\* the step): it is published as 0.
 Obs(r) == IF r.err # "" THEN [err |-> r.err, shape |-> <<>>, strides |-> <<>>, el |-> <<>>]
           ELSE [err |-> "", shape |-> Seqify([q \in DOMAIN r.dims |-> r.dims[q].n]),
-                strides |-> Seqify([q \in DOMAIN r.dims |-> r.dims[q].s]), el |-> Elems(r.off, r.dims)]
+                strides |-> Seqify([q \in DOMAIN r.dims |-> IF r.dims[q].n = 0 THEN 0 ELSE r.dims[q].s]), el |-> Elems(r.off, r.dims)]
 
 HasNone(e) == \E p \in DOMAIN e : e[p].k = "n"
 Paths(e) == IF HasNone(e) THEN {"typed"} ELSE {"typed", "object"}
-ImplObs(view, e, path, fc, fd) == Obs(ApplyImpl(view, e, path, fc, fd))
+ImplObs(vw, e, path, fc, fd) == Obs(ApplyImpl(vw, e, path, fc, fd))
 
-\* hazard class of a case
-Hazard(view, e, want) ==
-  LET ok(fc, fd) == \A path \in Paths(e) : ImplObs(view, e, path, fc, fd) = want
-  IN IF ok(FALSE, FALSE) THEN "none"
+\* hazard class of a case (want: reference observation; p: observation of the transcription as it is, typed path)
+Hazard(vw, e, want, p) ==
+  LET okO(fc, fd) == "object" \in Paths(e) => ImplObs(vw, e, "object", fc, fd) = want
+      ok(fc, fd) == ImplObs(vw, e, "typed", fc, fd) = want /\ okO(fc, fd)
+  IN IF p = want /\ okO(FALSE, FALSE) THEN "none"
      ELSE IF ok(TRUE, FALSE) THEN "clamp"
      ELSE IF ok(FALSE, TRUE) THEN "div"
      ELSE IF ok(TRUE, TRUE) THEN "clamp+div"
@@ -221,13 +233,13 @@ FirstMenu(n) == {Sl(NoneV, NoneV, 2), Sl(NoneV, NoneV, -1), Sl(1, NoneV, NoneV),
                  Sl(1, NoneV, 3), Sl(-2, NoneV, -1), Sl(n, 0, -1), FullSl, Sl(1, n - 1, 1)}
 
 \* `lane` partitions the first-step menus over several initial states (so that TLC's workers share the work)
-SliceMenu(n, depth, lane) ==
-  IF Mode = "full1" THEN {Sl(lane, b, c) : b \in Dom(n), c \in Steps}
+SliceMenu(n, depth, ln) ==
+  IF Mode = "full1" THEN {Sl(ln, b, c) : b \in Dom(n), c \in Steps}
   ELSE IF depth = 0 \/ depth >= 2 THEN FirstMenu(n)
   ELSE IF ChainFull THEN {Sl(a, b, c) : a \in Dom(n), b \in Dom(n), c \in Steps}
   ELSE {Sl(a, b, c) : a \in BSet(n), b \in BSet(n), c \in Steps}
-IndexMenu(n, depth, lane) ==
-  IF Mode = "full1" THEN (IF lane = NoneV THEN {Ix(i) : i \in (-2 * n - 1)..(2 * n + 1)} ELSE {})
+IndexMenu(n, depth, ln) ==
+  IF Mode = "full1" THEN (IF ln = NoneV THEN {Ix(i) : i \in (-2 * n - 1)..(2 * n + 1)} ELSE {})
   ELSE IF ChainFull THEN {Ix(i) : i \in (-2 * n - 1)..(2 * n + 1)}
   ELSE {Ix(i) : i \in BSet(n) \ {NoneV}}
 
@@ -251,48 +263,40 @@ PatAxis(pt, p, nd) ==   \* the axis an "x" at position p lands on
   LET before == {q \in 1..(p - 1) : pt[q] = "x"}
       after == {q \in (p + 1)..Len(pt) : pt[q] = "x"}
   IN IF \E q \in 1..(p - 1) : pt[q] = "E" THEN nd - Cardinality(after) ELSE Cardinality(before) + 1
-ExprsND(view, pt) ==
-  LET nd == Len(view.dims)
-  IN Prod(Seqify([p \in DOMAIN pt |-> IF pt[p] = "x" THEN AxisMenu(view.dims[PatAxis(pt, p, nd)].n, nd)
+ExprsND(vw, pt) ==
+  LET nd == Len(vw.dims)
+  IN Prod(Seqify([p \in DOMAIN pt |-> IF pt[p] = "x" THEN AxisMenu(vw.dims[PatAxis(pt, p, nd)].n, nd)
                                         ELSE IF pt[p] = "N" THEN {NA} ELSE {EL}]))
-Lanes(i) == CASE Mode = "full1" -> Dom(i[1][1]) [] Mode = "chain1" -> {0} [] Mode = "nd" -> Pats(Len(i[1]))
+Lanes(i) == CASE i[1] = "full1" -> Dom(i[2][1]) [] i[1] = "chain1" -> {0} [] i[1] = "nd" -> Pats(Len(i[2]))
 
 ---------------------------------------------------------------------------
 (* input sets for the configurations *)
 Layouts == {"c", "s2", "r"}
-I1(ns, ls) == {<<<<n>>, <<l>>>> : n \in ns, l \in ls}
-INd(lenss, layss) == {<<a, b>> : a \in lenss, b \in layss}
-Inits1Q == I1(0..4, Layouts)
-Inits1T == I1(0..6, Layouts)
-InitsChainQ == I1({4}, Layouts) \cup I1({1}, {"s2"})
-InitsChainT == I1(0..5, Layouts)
-InitsChainT3 == I1({3}, Layouts)
+I1(m, ns, ls) == {<<m, <<n>>, <<l>>>> : n \in ns, l \in ls}
+INd(m, lenss, layss) == {<<m, a, b>> : a \in lenss, b \in layss}
 Lays2 == {<<"c", "c">>, <<"s2", "r">>, <<"r", "s2">>}
 Lays3 == {<<"c", "c", "c">>, <<"r", "s2", "c">>}
-InitsNDQ == I1({0, 1, 3}, Layouts)
-            \cup INd({<<3, 2>>, <<1, 3>>, <<2, 0>>}, Lays2)
-            \cup INd({<<2, 1, 3>>, <<1, 2, 0>>}, Lays3)
-InitsNDT == I1({0, 1, 2, 3, 6}, Layouts)
-            \cup INd({<<a, b>> : a \in {0, 1, 2, 4}, b \in {0, 1, 3, 6}}, Lays2 \cup {<<"c", "r">>})
-            \cup INd({<<2, 1, 3>>, <<1, 2, 0>>, <<3, 3, 2>>, <<0, 2, 1>>, <<4, 1, 2>>, <<2, 6, 1>>}, Lays3 \cup {<<"s2", "r", "r">>})
-InitsRefute == I1({3}, {"c"})
+InitsQ == I1("full1", 0..4, {"c"}) \cup I1("full1", {3}, {"s2", "r"})
+          \cup I1("chain1", {4}, {"r"}) \cup I1("chain1", {2}, {"s2"})
+          \cup I1("nd", {0, 3}, {"c", "r"})
+          \cup INd("nd", {<<3, 2>>}, {<<"s2", "r">>}) \cup INd("nd", {<<2, 0>>}, {<<"c", "c">>})
+          \cup INd("nd", {<<2, 1, 3>>}, {<<"r", "s2", "c">>})
+InitsT == I1("full1", 0..6, Layouts)
+          \cup I1("chain1", 0..5, Layouts)
+          \cup I1("nd", {0, 1, 2, 3, 6}, Layouts)
+          \cup INd("nd", {<<a, b>> : a \in {0, 1, 2, 4}, b \in {0, 1, 3, 6}}, Lays2 \cup {<<"c", "r">>})
+          \cup INd("nd", {<<2, 1, 3>>, <<1, 2, 0>>, <<3, 3, 2>>, <<0, 2, 1>>, <<4, 1, 2>>, <<2, 6, 1>>}, Lays3 \cup {<<"s2", "r", "r">>})
+InitsT3 == I1("chain1", {3}, Layouts)       \* chains of three links
+InitsRefute == I1("full1", {2}, {"c"})
 
 ---------------------------------------------------------------------------
-VARIABLES init,   \* <<lens, lays>> of the input buffer
-          lane,   \* which part of the first-step menu this behaviour explores
-          prev,   \* view the last expression was applied to
-          view,   \* current (reference) view
-          hist,   \* expressions applied so far
-          exp     \* expected observation of the last expression, hazard class, predicted observation of the code as it is
-vars == <<init, lane, prev, view, hist, exp>>
-
 NoExp == [err |-> "", shape |-> <<>>, strides |-> <<>>, el |-> <<>>, hz |-> "none",
           perr |-> "", pshape |-> <<>>, pstrides |-> <<>>, pel |-> <<>>, safe |-> TRUE,
           nbs |-> FALSE, nbe |-> FALSE, big |-> FALSE]
 
 Init == /\ init \in Inits
         /\ lane \in Lanes(init)
-        /\ view = InitView(init[1], init[2])
+        /\ view = InitView(init[2], init[3])
         /\ prev = view
         /\ hist = <<>>
         /\ exp = NoExp
@@ -308,13 +312,13 @@ MkExp_(o, hz, p, x, dims, base) ==
    nbe |-> \E q \in DOMAIN x : x[q].k = "s" /\ x[q].c # NoneV /\ x[q].c < 0       \* negative step, stop below -extent
                                /\ x[q].b # NoneV /\ x[q].b < -dims[AxisOf(x, q)].n,
    big |-> \E q \in DOMAIN x : x[q].k = "s" /\ x[q].c # NoneV /\ Abs(x[q].c) >= 2]
-Step__(e, r, o) ==
+Step___(e, r, o, p) ==
   /\ prev' = view
   /\ view' = IF r.err = "" THEN [off |-> r.off, dims |-> r.dims] ELSE view
   /\ hist' = Append(hist, e)
-  /\ exp' = MkExp_(o, Hazard(view, e, o), ImplObs(view, e, "typed", FALSE, FALSE), Expand(e, Len(view.dims)),
-                   view.dims, BaseSize(init[1]))
+  /\ exp' = MkExp_(o, Hazard(view, e, o, p), p, Expand(e, Len(view.dims)), view.dims, BaseSize(init[2]))
   /\ UNCHANGED <<init, lane>>
+Step__(e, r, o) == Step___(e, r, o, ImplObs(view, e, "typed", FALSE, FALSE))
 Step_(e, r) == Step__(e, r, Obs(r))
 Step(e) == Step_(e, ApplyRef(view, e))
 
@@ -359,7 +363,9 @@ PredInBase == /\ Len(hist) = 1 => exp.safe
               /\ exp.hz = "none" => exp.safe
 
 \* with both repairs the transcription agrees with the reference on every path
-FixedImplAgrees == Stepped => \A path \in Paths(op) : ImplObs(prev, op, path, TRUE, TRUE) = Obs(ApplyRef(prev, op))
+ExpObs == [err |-> exp.err, shape |-> exp.shape, strides |-> exp.strides, el |-> exp.el]
+PredObs == [err |-> exp.perr, shape |-> exp.pshape, strides |-> exp.pstrides, el |-> exp.pel]
+FixedImplAgrees == Stepped => \A path \in Paths(op) : ImplObs(prev, op, path, TRUE, TRUE) = ExpObs
 NoUnexplained == exp.hz # "unexplained"
 
 \* hazards lie only where the root causes say (this keeps the known-finding matchers narrow)
@@ -373,19 +379,20 @@ UnellipsifyOK ==
              /\ ~HasNone(op) => UnellR(op, Len(prev.dims)) = Expand(op, Len(prev.dims))
 
 \* typed and object path are modelled to agree (they share the per-dimension function)
-PathsAgree == (Stepped /\ "object" \in Paths(op)) => ImplObs(prev, op, "object", FALSE, FALSE) = ImplObs(prev, op, "typed", FALSE, FALSE)
+PathsAgree == (Stepped /\ "object" \in Paths(op)) => ImplObs(prev, op, "object", FALSE, FALSE) = PredObs
 
 \* expected to be REFUTED (MemSlice_refute.cfg): the code as it is equals the reference
-ImplAgrees == Stepped => ImplObs(prev, op, "typed", FALSE, FALSE) = Obs(ApplyRef(prev, op))
+ImplAgrees == Stepped => PredObs = ExpObs
 
 ItemJ(it) == <<it.k, it.a, it.b, it.c>>
 Publish ==
   Dump =>
     IF Stepped
-    THEN PrintT("@@" \o ToJson([lens |-> init[1], lays |-> init[2],
+    THEN PrintT("@@" \o ToJson([part |-> init[1], lens |-> init[2], lays |-> init[3],
                                 hist |-> [h \in DOMAIN hist |-> [p \in DOMAIN hist[h] |-> ItemJ(hist[h][p])]],
                                 exp |-> exp]))
-    ELSE LET o == Obs([err |-> "", off |-> view.off, dims |-> view.dims])      \* the input buffer itself
-         IN PrintT("@@" \o ToJson([input |-> TRUE, lens |-> init[1], lays |-> init[2], off |-> view.off,
-                                    shape |-> o.shape, strides |-> o.strides, el |-> o.el, base |-> BaseSize(init[1])]))
+    ELSE PrintT("@@" \o ToJson([input |-> TRUE, lens |-> init[2], lays |-> init[3], off |-> view.off,      \* the input buffer itself
+                                shape |-> [q \in DOMAIN view.dims |-> view.dims[q].n],
+                                strides |-> [q \in DOMAIN view.dims |-> view.dims[q].s],
+                                el |-> Elems(view.off, view.dims), base |-> BaseSize(init[2])]))
 =============================================================================
